@@ -26,3 +26,35 @@ fn probe_limits_consthash() {
     assert!(!l.incoming_connections.contains(&ConnectionId::from(a)));
     core::mem::forget(l);
 }
+
+#[kani::proof]
+#[kani::unwind(6)]
+#[kani::stub(std::hash::RandomState::new, stub_rs_new)]
+#[kani::stub(<std::hash::DefaultHasher as std::hash::Hasher>::write, stub_write)]
+#[kani::stub(<std::hash::DefaultHasher as std::hash::Hasher>::finish, stub_finish)]
+fn probe_limits_concrete_keys() {
+    let max_in: Option<usize> = kani::any();
+    let max_out: Option<usize> = kani::any();
+    let mut l = ConnectionLimits { config: ConnectionLimitsConfig { max_incoming_connections: max_in, max_outgoing_connections: max_out }, incoming_connections: HashSet::new(), outgoing_connections: HashSet::new() };
+    let la: bool = kani::any();
+    let lb: bool = kani::any();
+    if l.can_accept_connection(la).is_ok() { l.accept_established_connection(ConnectionId::from(1usize), la); }
+    if l.can_accept_connection(lb).is_ok() { l.accept_established_connection(ConnectionId::from(2usize), lb); }
+    if let Some(m) = max_in { assert!(l.incoming_connections.len() <= m); }
+    if let Some(m) = max_out { assert!(l.outgoing_connections.len() <= m); }
+    l.on_connection_closed(ConnectionId::from(1usize));
+    assert!(!l.incoming_connections.contains(&ConnectionId::from(1usize)));
+    core::mem::forget(l);
+}
+
+#[kani::proof]
+#[kani::unwind(20)]
+#[kani::stub(std::hash::RandomState::new, stub_rs_new)]
+#[kani::stub(<std::hash::DefaultHasher as std::hash::Hasher>::write, stub_write)]
+#[kani::stub(<std::hash::DefaultHasher as std::hash::Hasher>::finish, stub_finish)]
+fn probe_hashmap_min() {
+    let mut m: std::collections::HashMap<u8, u8> = std::collections::HashMap::new();
+    m.insert(1, 2);
+    assert!(m.get(&1) == Some(&2));
+    core::mem::forget(m);
+}
